@@ -525,6 +525,15 @@ func parentMain(h *Harness) int {
 		fmt.Printf("ENGINE-ERROR property=%s\n%d oracle failure(s) did not recur when re-executed and none was confirmed: %s\n", h.Prop, m.Counters["unconfirmed_violations"], m.Notes["unconfirmed_violation"])
 		return 2
 	}
+	if len(m.Samples) == 0 && nv > 0 {
+		// The run was cut short by what it found (e.g. a worker that had to be
+		// abandoned): the violating cases themselves are the samples.
+		for i := range viols {
+			if len(m.Samples) < 3 {
+				m.Samples = append(m.Samples, map[string]any{"violating_case_key": viols[i].Key})
+			}
+		}
+	}
 	if len(m.Samples) == 0 {
 		fmt.Printf("ENGINE-ERROR property=%s\nthe harness recorded no sample case (c.Sample): the evidence file would be invalid\n", h.Prop)
 		return 2
